@@ -133,7 +133,8 @@ def run(flags, n, v, var=0):
 		bytes(resp.body)
 		resp.status = 200 if st200 else 404
 		resp.headers.clear()
-		resp.body = b''
+		if var % 2 or (n + len(v)) % 5 == 1:
+			resp.body = b''      # (otherwise the body of the earlier answer is still there when the new representation is assigned; before write() always)
 	elif (n + len(v) + var) % 4 == 2:
 		# the Response object answered an earlier exchange with a chunked stream; status, header fields and body are set anew
 		req0 = Request('GET', '/x', protocol=(1, 1))
@@ -149,8 +150,11 @@ def run(flags, n, v, var=0):
 	if var % 5 == 4:
 		resp.headers['Content-Length'] = str(n + 7)      # a stale length left on the message: prepare() computes its own
 	# the representation is supplied in one of three ways: assigned, written (file position at the end), assigned and partly read
-	mode = (n + len(v)) % 4
-	if mode == 3:
+	mode = (n + len(v)) % 5
+	if mode == 4:
+		from httoop.messages.body import Body
+		resp.body = Body(body(n))      # the representation handed over as a Body object
+	elif mode == 3:
 		import tempfile
 		f = tempfile.NamedTemporaryFile(dir=os.environ.get('VERIF_SCRATCH') or None)      # a real, named file (closed and removed when collected)
 		f.write(body(n))
